@@ -427,7 +427,14 @@ def angles_to_x(points, latitude=False):
         The corresponding Cartesian vectors.
     """
     npoints, ncol = points.shape
-    x = np.zeros((npoints, 3), dtype=points.dtype)
+    #
+    # The components of a unit vector are not integers, even if the
+    # angles are.
+    #
+    if points.dtype.kind in 'iub':
+        x = np.zeros((npoints, 3), dtype=np.float64)
+    else:
+        x = np.zeros((npoints, 3), dtype=points.dtype)
     phi = np.radians(points[:, 0])
     if latitude:
         theta = np.radians(90.0 - points[:, 1])
